@@ -164,6 +164,11 @@ func libFile() []byte {
 			names = append(names, fmtgen.NameOfLen(rnd, 4000+rnd.Intn(97)))
 		}
 	}
+	if rnd.Chance(40) {
+		// the first and the last buckets of the table
+		names = append(names, fmtgen.NameInBucket(rnd, 511), fmtgen.NameInBucket(rnd, 0), fmtgen.NameInBucket(rnd, uint32(509+rnd.Intn(3))))
+		out.Note("lib-edge-buckets")
+	}
 	for _, n := range names {
 		p, _, cur, err := m.NewCounter(n)
 		m = cur
@@ -188,6 +193,10 @@ func specFile() []byte {
 	if rnd.Chance(15) {
 		names = append(names, twinNames()...)
 		out.Note("spec-twin-names")
+	}
+	if rnd.Chance(40) {
+		names = append(names, fmtgen.NameInBucket(rnd, 511), fmtgen.NameInBucket(rnd, 0), fmtgen.NameInBucket(rnd, uint32(509+rnd.Intn(3))))
+		out.Note("spec-edge-buckets")
 	}
 	cs := make([]fmtgen.KV, len(names))
 	for i, n := range names {
